@@ -376,6 +376,105 @@ def zeroElem (m : Mode) (el : Bytes → Dec (Value × Bytes)) (n : Nat) (h : Haz
 def unwrapArr (n : Nat) (vs : List Value) : Dec (List Value) :=
   if vs.length = n then .ok vs else .err .unwrap
 
+/-- the context entries an array case reads are bound (a size / count / element-size field
+    precedes the array); otherwise the emitted code would not compile -/
+def arrayKeysOk (ew : ElemWidth) (shape : Shape) (cnt siz esz : Option Nat) : Bool :=
+  (match shape with
+   | .countField => cnt.isSome
+   | .sizeField => siz.isSome
+   | _ => true) &&
+  (match ew with
+   | .dynamic => esz.isSome
+   | _ => true)
+
+/-- the twelve cases of decoder.rs `add_array_field` (element width × array shape) over the
+    element decoder `el`, on the span `sp` the array is parsed from -/
+def decArray (m : Mode) (el : Bytes → Dec (Value × Bytes)) (ew : ElemWidth) (shape : Shape)
+    (cnt siz esz : Option Nat) (sp : Bytes) : Dec (List Value × Bytes) :=
+  let ideal := m == .ideal
+  match ew, shape with
+  | .unknown, .sizeField =>
+    match siz with
+    | none => .panic .badLayout
+    | some sz =>
+      if sp.length < sz then .err .length
+      else
+        -- (before the `fix:` commit "parse padded, size-delimited arrays … from the array
+        -- octets" the padded case parsed the elements from what follows the array)
+        (decWhile el (sz + 1) (sp.take sz)).bind fun vs => .ok (vs, sp.drop sz)
+  | .unknown, .static n =>
+      (decRepeat el n sp).bind fun (vs, r) => (unwrapArr n vs).bind fun vs => .ok (vs, r)
+  | .unknown, .countField =>
+    match cnt with
+    | none => .panic .badLayout
+    | some n => decRepeat el n sp
+  | .unknown, .unknown =>
+      (decWhile el (sp.length + 1) sp).bind fun vs => .ok (vs, [])
+  | .static w, .static n =>
+      if sp.length < n * w then .err .length
+      else (decRepeat el n sp).bind fun (vs, r) => (unwrapArr n vs).bind fun vs => .ok (vs, r)
+  | .static w, .countField =>
+    match cnt with
+    | none => .panic .badLayout
+    | some n =>
+      (umulM m n w).bind fun tot =>
+      if sp.length < tot then .err .length else decRepeat el n sp
+  | .static w, .sizeField =>
+    match siz with
+    | none => .panic .badLayout
+    | some sz =>
+      if sp.length < sz then .err .length
+      else if w = 0 then .panic .remZero
+      else if sz % w ≠ 0 then .err .arraySize
+      else decRepeat el (sz / w) sp
+  | .static w, .unknown =>
+      let sz := sp.length
+      if w = 0 then .panic .remZero
+      else if sz % w ≠ 0 then .err .arraySize
+      else decRepeat el (sz / w) sp
+  | .dynamic, .static n =>
+    match esz with
+    | none => .panic .badLayout
+    | some es =>
+      (if n = 1 then .ok es else umulM m n es).bind fun tot =>
+      if sp.length < tot then .err .length
+      else if es = 0 then zeroElem m el n .chunksZero sp
+      else (decChunked el es n sp).bind fun vs =>
+        (unwrapArr n vs).bind fun vs => .ok (vs, sp.drop tot)
+  | .dynamic, .countField =>
+    match esz, cnt with
+    | some es, some n =>
+      (umulM m n es).bind fun tot =>
+      if sp.length < tot then .err .length
+      else if es = 0 then zeroElem m el n .chunksZero sp
+      else (decChunked el es n sp).bind fun vs => .ok (vs, sp.drop tot)
+    | _, _ => .panic .badLayout
+  | .dynamic, .sizeField =>
+    match esz, siz with
+    | some es, some sz =>
+      if sp.length < sz then .err .length
+      else if es = 0 then (if ideal then (if sz = 0 then .ok ([], sp) else .err .arraySize) else .panic .remZero)
+      else if sz % es ≠ 0 then .err .arraySize
+      else (decChunked el es (sz / es) sp).bind fun vs => .ok (vs, sp.drop sz)
+    | _, _ => .panic .badLayout
+  | .dynamic, .unknown =>
+    match esz with
+    | none => .panic .badLayout
+    | some es =>
+      let sz := sp.length
+      if es = 0 then (if ideal then (if sz = 0 then .ok ([], sp) else .err .arraySize) else .panic .remZero)
+      else if sz % es ≠ 0 then .err .arraySize
+      else (decChunked el es (sz / es) sp).bind fun vs => .ok (vs, [])
+
+/-- padding: the array is parsed from the first `pad` octets -/
+def withPad (pad : Option Nat) (bs : Bytes) (k : Bytes → Dec (List Value × Bytes)) :
+    Dec (List Value × Bytes) :=
+  match pad with
+  | none => k bs
+  | some p =>
+    if bs.length < p then .err .length
+    else (k (bs.take p)).bind fun (vs, _) => .ok (vs, bs.drop p)
+
 mutual
 /-- one array element / optional / typedef value -/
 def decTy (c : Cfg) : Ty → Bytes → Dec (Value × Bytes)
@@ -437,92 +536,13 @@ def decItem (c : Cfg) : Item → Bytes → DState → Dec (DState × Bytes)
       else .ok ({ st with payload := some (bs.take (bs.length - k)) }, bs.drop (bs.length - k))
     | .undelimited => .panic .badLayout
   | .array id elem ew shape pad, bs, st =>
-    -- padding: the array is parsed from the first `pad` octets
-    let withSpan (k : Bytes → Dec (List Value × Bytes)) : Dec (DState × Bytes) :=
-      match pad with
-      | none => (k bs).bind fun (vs, r) => .ok ({ st with fields := st.fields ++ [(id, .arr vs)] }, r)
-      | some p =>
-        if bs.length < p then .err .length
-        else (k (bs.take p)).bind fun (vs, _) =>
-          .ok ({ st with fields := st.fields ++ [(id, .arr vs)] }, bs.drop p)
-    let el := decTy c elem
-    let ideal := c.mode == .ideal
     let cnt := st.ctx.get (.count id)
     let siz := st.ctx.get (.size id)
     let esz := st.ctx.get (.esize id)
-    match ew, shape with
-    | .unknown, .sizeField =>
-      match siz with
-      | none => .panic .badLayout
-      | some sz => withSpan fun sp =>
-        if sp.length < sz then .err .length
-        else
-          -- (before the `fix:` commit "parse padded, size-delimited arrays … from the array
-          -- octets" the padded case parsed the elements from what follows the array)
-          (decWhile el (sz + 1) (sp.take sz)).bind fun vs => .ok (vs, sp.drop sz)
-    | .unknown, .static n => withSpan fun sp =>
-        (decRepeat el n sp).bind fun (vs, r) => (unwrapArr n vs).bind fun vs => .ok (vs, r)
-    | .unknown, .countField =>
-      match cnt with
-      | none => .panic .badLayout
-      | some n => withSpan fun sp => decRepeat el n sp
-    | .unknown, .unknown => withSpan fun sp =>
-        (decWhile el (sp.length + 1) sp).bind fun vs => .ok (vs, [])
-    | .static w, .static n => withSpan fun sp =>
-        if sp.length < n * w then .err .length
-        else (decRepeat el n sp).bind fun (vs, r) => (unwrapArr n vs).bind fun vs => .ok (vs, r)
-    | .static w, .countField =>
-      match cnt with
-      | none => .panic .badLayout
-      | some n => withSpan fun sp =>
-        (umulM c.mode n w).bind fun tot =>
-        if sp.length < tot then .err .length else decRepeat el n sp
-    | .static w, .sizeField =>
-      match siz with
-      | none => .panic .badLayout
-      | some sz => withSpan fun sp =>
-        if sp.length < sz then .err .length
-        else if w = 0 then .panic .remZero
-        else if sz % w ≠ 0 then .err .arraySize
-        else decRepeat el (sz / w) sp
-    | .static w, .unknown => withSpan fun sp =>
-        let sz := sp.length
-        if w = 0 then .panic .remZero
-        else if sz % w ≠ 0 then .err .arraySize
-        else decRepeat el (sz / w) sp
-    | .dynamic, .static n =>
-      match esz with
-      | none => .panic .badLayout
-      | some es => withSpan fun sp =>
-        (if n = 1 then .ok es else umulM c.mode n es).bind fun tot =>
-        if sp.length < tot then .err .length
-        else if es = 0 then zeroElem c.mode el n .chunksZero sp
-        else (decChunked el es n sp).bind fun vs =>
-          (unwrapArr n vs).bind fun vs => .ok (vs, sp.drop tot)
-    | .dynamic, .countField =>
-      match esz, cnt with
-      | some es, some n => withSpan fun sp =>
-        (umulM c.mode n es).bind fun tot =>
-        if sp.length < tot then .err .length
-        else if es = 0 then zeroElem c.mode el n .chunksZero sp
-        else (decChunked el es n sp).bind fun vs => .ok (vs, sp.drop tot)
-      | _, _ => .panic .badLayout
-    | .dynamic, .sizeField =>
-      match esz, siz with
-      | some es, some sz => withSpan fun sp =>
-        if sp.length < sz then .err .length
-        else if es = 0 then (if ideal then (if sz = 0 then .ok ([], sp) else .err .arraySize) else .panic .remZero)
-        else if sz % es ≠ 0 then .err .arraySize
-        else (decChunked el es (sz / es) sp).bind fun vs => .ok (vs, sp.drop sz)
-      | _, _ => .panic .badLayout
-    | .dynamic, .unknown =>
-      match esz with
-      | none => .panic .badLayout
-      | some es => withSpan fun sp =>
-        let sz := sp.length
-        if es = 0 then (if ideal then (if sz = 0 then .ok ([], sp) else .err .arraySize) else .panic .remZero)
-        else if sz % es ≠ 0 then .err .arraySize
-        else (decChunked el es (sz / es) sp).bind fun vs => .ok (vs, [])
+    if !arrayKeysOk ew shape cnt siz esz then .panic .badLayout
+    else
+      (withPad pad bs (decArray c.mode (decTy c elem) ew shape cnt siz esz)).bind fun (vs, r) =>
+        .ok ({ st with fields := st.fields ++ [(id, .arr vs)] }, r)
 
 def decItems (c : Cfg) : Items → Bytes → DState → Dec (DState × Bytes)
   | .nil, bs, st => .ok (st, bs)
